@@ -80,8 +80,13 @@ func addMapping(m *Map, seqno, delta, pidDelta uint16) {
 
 	i := m.lastEntry
 	if delta == m.entries[i].delta && pidDelta == m.entries[i].pidDelta {
-		m.entries[m.lastEntry].count = seqno - m.entries[i].first + 1
-		return
+		count := seqno - m.entries[i].first + 1
+		// comparisons are modulo 2^16, an entry must not span more
+		// than 2^15 seqnos.
+		if count <= 0x4000 {
+			m.entries[m.lastEntry].count = count
+			return
+		}
 	}
 
 	f := seqno
